@@ -74,7 +74,7 @@ def build(root, world):
             kind, path = st[0], st[1]
             rp = root + path
             par = os.path.dirname(rp)
-            if not os.path.isdir(par):
+            if kind != 'rm' and not os.path.isdir(par):
                 os.makedirs(par, 0o755)
             n += 1
             if kind == 'd':
@@ -96,6 +96,12 @@ def build(root, world):
                     O.close(fd)
                 O.chmod(rp, mode)
                 O.utime(rp, ns=(mt * 10**9, mt * 10**9))
+            elif kind == 'rm':
+                if os.path.lexists(rp):
+                    if os.path.isdir(rp) and not os.path.islink(rp):
+                        _rmtree(rp)
+                    else:
+                        O.unlink(rp)
             elif kind == 'l':
                 target = st[2]
                 rt = (root + target) if target.startswith('/') else target
